@@ -7,36 +7,51 @@ use std::task::Poll;
 use crate::rt::{block_on, linearizable, outcome, pending_polls, poll_once, vassert, History, OpK};
 
 pub struct Entry {
-    pub name: &'static str,
+    pub name: String,
     pub prop: &'static str,
-    pub what: &'static str,
+    pub what: String,
     pub quick_bound: i64,
     /// -1 = unbounded
     pub thorough_bound: i64,
     pub min_outcomes: usize,
-    pub body: fn(),
+    pub body: Box<dyn Fn() + Send + Sync>,
+    /// only in the thorough tier
+    pub thorough_only: bool,
 }
 
-pub static CATALOGUE: &[Entry] = &[
-    Entry { name: "W1", prop: "C02", what: "subscriber thread blocked in next() vs. set(1)", quick_bound: 3, thorough_bound: -1, min_outcomes: 2, body: w1 },
-    Entry { name: "W2", prop: "C02", what: "subscriber thread looping on next() vs. set(1); set(2); drop", quick_bound: 3, thorough_bound: -1, min_outcomes: 3, body: w2 },
-    Entry { name: "W3", prop: "C02", what: "two subscriber threads blocked in next() vs. one set(1)", quick_bound: 3, thorough_bound: -1, min_outcomes: 2, body: w3 },
-    Entry { name: "W4", prop: "C02", what: "subscriber thread blocked in next() vs. drop of the only owner", quick_bound: 3, thorough_bound: -1, min_outcomes: 2, body: w4 },
-    Entry { name: "W5", prop: "C02", what: "subscribe_reset subscriber: first next() immediate, second blocks until set(1)", quick_bound: 3, thorough_bound: -1, min_outcomes: 2, body: w5 },
-    Entry { name: "D1", prop: "C03", what: "two clones dropped by two threads, a third thread blocked in next()", quick_bound: 3, thorough_bound: -1, min_outcomes: 2, body: d1 },
-    Entry { name: "D2", prop: "C03", what: "three clones dropped by three threads, subscriber polled afterwards", quick_bound: 3, thorough_bound: -1, min_outcomes: 1, body: d2 },
-    Entry { name: "D3", prop: "C03", what: "last owner dropped while another thread upgrades a weak reference", quick_bound: 3, thorough_bound: -1, min_outcomes: 2, body: d3 },
-    Entry { name: "D4", prop: "C03", what: "clone() on one thread while the other owner is dropped", quick_bound: 3, thorough_bound: -1, min_outcomes: 1, body: d4 },
-    Entry { name: "L1", prop: "C04", what: "set(1) || set(2) on two clones", quick_bound: 3, thorough_bound: -1, min_outcomes: 2, body: l1 },
-    Entry { name: "L2", prop: "C04", what: "update(+1) || update(+1) || get()", quick_bound: 3, thorough_bound: -1, min_outcomes: 3, body: l2 },
-    Entry { name: "L3", prop: "C04", what: "set_if_not_eq(1) || set_if_not_eq(1) || get()", quick_bound: 3, thorough_bound: -1, min_outcomes: 2, body: l3 },
-    Entry { name: "L4", prop: "C04", what: "read guard held over two reads and a try_write || set(1)", quick_bound: 3, thorough_bound: -1, min_outcomes: 2, body: l4 },
-    Entry { name: "L5", prop: "C04", what: "write guard doing set(1); set(2) || get() and next_now()", quick_bound: 3, thorough_bound: -1, min_outcomes: 2, body: l5 },
-    Entry { name: "L6", prop: "C04", what: "set(1); set(2) || subscriber thread calling next() until it sees 2", quick_bound: 3, thorough_bound: -1, min_outcomes: 2, body: l6 },
-    Entry { name: "L7", prop: "C04", what: "subscribe() || set(1), then set(2)", quick_bound: 3, thorough_bound: -1, min_outcomes: 2, body: l7 },
-    Entry { name: "L8", prop: "C04", what: "next_now() || set(1): value handed out and observed version are one atomic read", quick_bound: 3, thorough_bound: -1, min_outcomes: 2, body: l8 },
-    Entry { name: "L9", prop: "C04", what: "next_ref_now() and get() || set(1); set(2): the subscriber ends on the final value", quick_bound: 3, thorough_bound: -1, min_outcomes: 2, body: l9 },
-];
+#[allow(non_snake_case)]
+fn Entry(name: &str, prop: &'static str, what: &str, quick_bound: i64, thorough_bound: i64, min_outcomes: usize, body: fn()) -> Entry {
+    Entry { name: name.to_string(), prop, what: what.to_string(), quick_bound, thorough_bound, min_outcomes, body: Box::new(body), thorough_only: false }
+}
+
+pub fn catalogue() -> Vec<Entry> {
+    let mut v = fixed();
+    v.extend(generated_programs());
+    v
+}
+
+fn fixed() -> Vec<Entry> {
+    vec![
+    Entry("W1", "C02", "subscriber thread blocked in next() vs. set(1)", 3, -1, 2, w1),
+    Entry("W2", "C02", "subscriber thread looping on next() vs. set(1); set(2); drop", 3, -1, 3, w2),
+    Entry("W3", "C02", "two subscriber threads blocked in next() vs. one set(1)", 3, -1, 2, w3),
+    Entry("W4", "C02", "subscriber thread blocked in next() vs. drop of the only owner", 3, -1, 2, w4),
+    Entry("W5", "C02", "subscribe_reset subscriber: first next() immediate, second blocks until set(1)", 3, -1, 2, w5),
+    Entry("D1", "C03", "two clones dropped by two threads, a third thread blocked in next()", 3, -1, 2, d1),
+    Entry("D2", "C03", "three clones dropped by three threads, subscriber polled afterwards", 3, -1, 1, d2),
+    Entry("D3", "C03", "last owner dropped while another thread upgrades a weak reference", 3, -1, 2, d3),
+    Entry("D4", "C03", "clone() on one thread while the other owner is dropped", 3, -1, 1, d4),
+    Entry("L1", "C04", "set(1) || set(2) on two clones", 3, -1, 2, l1),
+    Entry("L2", "C04", "update(+1) || update(+1) || get()", 3, -1, 3, l2),
+    Entry("L3", "C04", "set_if_not_eq(1) || set_if_not_eq(1) || get()", 3, -1, 2, l3),
+    Entry("L4", "C04", "read guard held over two reads and a try_write || set(1)", 3, -1, 2, l4),
+    Entry("L5", "C04", "write guard doing set(1); set(2) || get() and next_now()", 3, -1, 2, l5),
+    Entry("L6", "C04", "set(1); set(2) || subscriber thread calling next() until it sees 2", 3, -1, 2, l6),
+    Entry("L7", "C04", "subscribe() || set(1), then set(2)", 3, -1, 2, l7),
+    Entry("L8", "C04", "next_now() || set(1): value handed out and observed version are one atomic read", 3, -1, 2, l8),
+    Entry("L9", "C04", "next_ref_now() and get() || set(1); set(2): the subscriber ends on the final value", 3, -1, 2, l9),
+    ]
+}
 
 // ---------------------------------------------------------------- C02
 
@@ -384,4 +399,144 @@ fn l9() {
     let q = poll_once(s.next());
     vassert(q.is_pending(), || format!("L9: the final value was handed out, yet next() answers {q:?} again"));
     outcome(format!("get={g} next_ref_now={v}"));
+}
+
+// ---------------------------------------------------------------- C04, generated
+
+/// Operations of the generated two-thread programs.
+#[derive(Clone, Copy, Debug, PartialEq, Eq)]
+enum POp {
+    Set1,
+    Set2,
+    Incr,
+    Sine1,
+    Take,
+    Get,
+    /// through a write guard: set(3) then set(4) (nobody may see 3)
+    Guard34,
+}
+
+const POPS: [POp; 7] = [POp::Set1, POp::Set2, POp::Incr, POp::Sine1, POp::Take, POp::Get, POp::Guard34];
+
+fn run_pop(ob: &SharedObservable<u32>, op: POp, h: &History) {
+    match op {
+        POp::Set1 => {
+            h.record(|| ob.set(1), |p| OpK::Set(1, *p));
+        }
+        POp::Set2 => {
+            h.record(|| ob.set(2), |p| OpK::Set(2, *p));
+        }
+        POp::Incr => {
+            h.record(|| ob.update(|x| *x += 1), |_| OpK::Incr);
+        }
+        POp::Sine1 => {
+            h.record(|| ob.set_if_not_eq(1), |r| OpK::SetIfNotEq(1, *r));
+        }
+        POp::Take => {
+            h.record(|| ob.take(), |p| OpK::Set(0, *p));
+        }
+        POp::Get => {
+            h.record(|| ob.get(), |v| OpK::Get(*v));
+        }
+        POp::Guard34 => {
+            // one atomic step for everybody else: previous value -> 4
+            h.record(
+                || {
+                    let mut g = ob.write();
+                    let p = ObservableWriteGuard::set(&mut g, 3);
+                    ObservableWriteGuard::set(&mut g, 4);
+                    p
+                },
+                |p| OpK::Set(4, *p),
+            );
+        }
+    }
+}
+
+fn notifies(op: POp) -> bool {
+    !matches!(op, POp::Get)
+}
+
+/// Thread A runs `a` (one or two operations), thread B runs `b`, a subscriber
+/// created up front is polled at the end.
+fn program(a: Vec<POp>, b: Vec<POp>) {
+    let ob = SharedObservable::new(0u32);
+    let mut sub = ob.subscribe();
+    let h = History::new();
+    let (oa, ha, a2) = (ob.clone(), h.clone(), a.clone());
+    let ta = thread::spawn(move || {
+        for op in a2 {
+            run_pop(&oa, op, &ha);
+        }
+    });
+    let (obb, hb, b2) = (ob.clone(), h.clone(), b.clone());
+    let tb = thread::spawn(move || {
+        for op in b2 {
+            run_pop(&obb, op, &hb);
+        }
+    });
+    ta.join().unwrap();
+    tb.join().unwrap();
+    let f = ob.get();
+    let recs = h.take();
+    vassert(linearizable(0, &recs, f), || format!("program {a:?} || {b:?}: history {recs:?} with final value {f} is not linearizable"));
+    vassert(recs.iter().all(|r| !matches!(r.op, OpK::Get(3) | OpK::Set(_, 3))), || format!("program {a:?} || {b:?}: somebody saw the value 3 that only exists inside a write guard: {recs:?}"));
+    // the subscriber ends on the final value, exactly once
+    let stored = recs.iter().any(|r| match r.op {
+        OpK::Set(..) | OpK::Incr => true,
+        OpK::SetIfNotEq(_, ret) => ret.is_some(),
+        OpK::Get(_) => false,
+    });
+    let p = poll_once(sub.next());
+    if stored {
+        vassert(matches!(p, Poll::Ready(Some(v)) if v == f), || format!("program {a:?} || {b:?}: updates happened, final value {f}, but the subscriber's next() answers {p:?}"));
+        let q = poll_once(sub.next());
+        vassert(q.is_pending(), || format!("program {a:?} || {b:?}: the final value was observed, next() answers {q:?} again"));
+    } else {
+        vassert(p.is_pending(), || format!("program {a:?} || {b:?}: nothing was stored but next() answers {p:?}"));
+    }
+    let _ = notifies;
+    outcome(format!("final={f} rets={:?}", {
+        let mut r: Vec<String> = recs.iter().map(|r| format!("{:?}", r.op)).collect();
+        r.sort();
+        r
+    }));
+}
+
+fn generated_programs() -> Vec<Entry> {
+    let mut v = Vec::new();
+    // every unordered pair of single operations
+    for (i, a) in POPS.iter().enumerate() {
+        for b in &POPS[i..] {
+            let (a, b) = (*a, *b);
+            v.push(Entry {
+                name: format!("P:{a:?}|{b:?}"),
+                prop: "C04",
+                what: format!("generated: thread A {a:?} || thread B {b:?}, linearizability + final subscriber state"),
+                quick_bound: 3,
+                thorough_bound: -1,
+                min_outcomes: 1,
+                body: Box::new(move || program(vec![a], vec![b])),
+                thorough_only: false,
+            });
+        }
+    }
+    // two operations on thread A against one on thread B (thorough)
+    for a1 in POPS {
+        for a2 in POPS {
+            for b in POPS {
+                v.push(Entry {
+                    name: format!("P:{a1:?},{a2:?}|{b:?}"),
+                    prop: "C04",
+                    what: format!("generated: thread A {a1:?}; {a2:?} || thread B {b:?}"),
+                    quick_bound: 2,
+                    thorough_bound: 3,
+                    min_outcomes: 1,
+                    body: Box::new(move || program(vec![a1, a2], vec![b])),
+                    thorough_only: true,
+                });
+            }
+        }
+    }
+    v
 }
